@@ -193,7 +193,8 @@ PROPS = {
         "harness": [{"bin": "conn", "env": {"VERIF_FAMILIES": "BASE,C10,C02"}}, {"bin": "cookie", "case_type": "ckcase", "imports": ["Lib.Bytes", "Run.CaseCookie"], "checkers": {"SG": "check_cookie", "CK": "check_cookie"}, "shard": 20}],
         "shard": 40,
         "quick_scale": 1, "thorough_scale": 8, "search_factor": 4,
-        "ties": ["conn binary: real Connection::listen on a scripted transport/client/adapters in a paused runtime vs Conn.Sem1.run1 (sends, calls, outcome, virtual ms)",
+        "ties": ["conn binary: real Connection::listen on a scripted transport/client/adapters in a paused runtime vs the byte-level model Conn.Sem2.run2 on the delivered timed segments (sends, calls, outcome, virtual ms), with no class exempted",
+                 "Conn.Sem2.run2 vs Conn.Sem1.run1 o Reader.frames_of on every case: the schedules on which they differ are the known classes K1 / K4",
                  "Gen/PacketsGen.v descriptors decode the client's frames and encode the model's packets"],
         "family_types": {"C10P": {"case_type": "pair_case", "imports": ["Lib.Bytes", "Run.CaseConn"], "checkers": {"C10P": "check_c10_pair"}}},
         "allowed_axioms": [],
@@ -279,11 +280,11 @@ PROPS = {
         "run_files": ["Run/CaseConn.v", "Run/CaseC09.v"],
         "imports": ["Lib.Bytes", "Codec.Desc", "Conn.Types", "Conn.Prog", "Conn.Sem1", "Run.CaseConn"],
         "case_type": "conn_case",
-        "checkers": {"BASE": "check_c04b", "MAL": "check_c04b", "C06": "check_c04b", "C01": "check_c04b"},
-        "harness": [{"bin": "conn", "env": {"VERIF_FAMILIES": "BASE,MAL,C06,C01"}}, {"bin": "codec", "families": ["DEC"], "case_type": "c09case", "imports": ["Lib.Bytes", "Codec.VarInt", "Codec.Desc", "Gen.PacketsGen", "Run.CaseC09"], "checkers": {"DEC": "check_c04_dec"}, "shard": 250}],
+        "checkers": {"BASE": "check_c04c", "MAL": "check_c04c", "C06": "check_c04c", "C01": "check_c04c", "CAN": "check_c04c"},
+        "harness": [{"bin": "conn", "env": {"VERIF_FAMILIES": "BASE,MAL,C06,C01,CAN"}}, {"bin": "codec", "families": ["DEC"], "case_type": "c09case", "imports": ["Lib.Bytes", "Codec.VarInt", "Codec.Desc", "Gen.PacketsGen", "Run.CaseC09"], "checkers": {"DEC": "check_c04_dec"}, "shard": 250}],
         "shard": 40,
         "quick_scale": 1, "thorough_scale": 8, "search_factor": 4,
-        "ties": ["conn binary: real Connection::listen on a scripted transport/client/adapters in a paused runtime vs Conn.Sem1.run1 (sends, calls, outcome, virtual ms)",
+        "ties": ["conn binary: real Connection::listen on a scripted transport/client/adapters in a paused runtime vs the byte-level model Conn.Sem2.run2 on the delivered timed segments (sends, calls, outcome, virtual ms), with no class exempted",
                  "Gen/PacketsGen.v descriptors decode the client's frames and encode the model's packets"],
         "allowed_axioms": [],
         "rule": 'conn binary family MAL: status/login/transfer transcripts with one frame mutated at every protocol state (hostile outer lengths -2^31,-1,0,2^31-1,over-long, max, max+1 followed by a 5 s pause before the body; declared length off by one; truncation + end of stream; hostile inner lengths; invalid UTF-8 / ordinals; random bytes; RSA blobs of 0/127/128/129/4096 bytes; frames of exactly max and max+1 bytes; mutations after encryption started) delivered as raw byte segments; plus the codec DEC cases (mutated encodings through every packet decoder with the counting allocator); non-trivial = distinct case that consumed at least one frame',
@@ -298,15 +299,16 @@ PROPS = {
         "run_files": ["Run/CaseConn.v"],
         "imports": ["Lib.Bytes", "Codec.Desc", "Conn.Types", "Conn.Prog", "Conn.Sem1", "Run.CaseConn"],
         "case_type": "conn_case",
-        "checkers": {"BASE": "check_c08b", "SEG": "check_c08b", "MAL": "check_c08b"},
-        "harness": [{"bin": "conn", "env": {"VERIF_FAMILIES": "BASE,SEG,MAL"}}],
+        "checkers": {"BASE": "check_c08c", "SEG": "check_c08c", "MAL": "check_c08c", "CAN": "check_c08c"},
+        "harness": [{"bin": "conn", "env": {"VERIF_FAMILIES": "BASE,SEG,MAL,CAN"}}],
         "shard": 40,
         "quick_scale": 1, "thorough_scale": 8, "search_factor": 4,
-        "ties": ["conn binary: real Connection::listen on a scripted transport/client/adapters in a paused runtime vs Conn.Sem1.run1 (sends, calls, outcome, virtual ms)",
+        "ties": ["conn binary: real Connection::listen on a scripted transport/client/adapters in a paused runtime vs the byte-level model Conn.Sem2.run2 on the delivered timed segments (sends, calls, outcome, virtual ms), with no class exempted",
+                 "Conn.Sem2.run2 vs Conn.Sem1.run1 o Reader.frames_of on every case: the schedules on which they differ are the known classes K1 / K4",
                  "Gen/PacketsGen.v descriptors decode the client's frames and encode the model's packets"],
         "family_types": {"SEGP": {"case_type": "seg_pair", "imports": ["Lib.Bytes", "Conn.Types", "Run.CaseConn"], "checkers": {"SEGP": "check_seg_pair"}}},
         "allowed_axioms": [],
-        "rule": 'conn binary family SEG: each scenario run whole and again with every client frame cut (one byte at a time, after the length prefix, before the last byte, at seeded offsets, 3 cuts) with 3 ms gaps and, in a third of the cases, a transport that accepts 1 or 7 bytes per write; the pair is compared on packets sent, services consulted and outcome (SEGP); every run is also compared with M1 applied to the byte-level reader; non-trivial = distinct segmented case',
+        "rule": 'conn binary family SEG: each scenario run whole and again with every client frame cut (one byte at a time, after the length prefix, before the last byte, at seeded offsets, 3 cuts) with 3 ms gaps and, in a third of the cases, a transport that accepts 1 or 7 bytes per write; the pair is compared on packets sent, services consulted and outcome (SEGP); family CAN: logins in which a keep-alive tick or the completion of a raced adapter call is placed inside the length prefix / the body of a client frame, or the stream ends inside a frame (9 variants, seeded offsets); every run is compared with the byte-level model M2 exactly and M2 with M1 applied to the byte-level reader; non-trivial = distinct segmented case',
         "trusted_base": COMMON_TB + ["Conn/Prog.v: hand transcription of Connection::listen into the program datatype (tied by the conn correspondence: every case compares the model's sends, adapter calls, outcome and virtual times with the real Connection::listen)",
                                      "Conn/Sem1.v: frame-level semantics incl. a hand model of tokio 1.49 Interval (MissedTickBehavior::Skip), validated by every timed conn case",
                                      "RSA PKCS#1 v1.5, serde_json, uuid generation, SystemTime: oracles recorded per case / universally quantified in the theorems",
